@@ -1,5 +1,5 @@
-\* thorough: meshes over 0..5, values {0, 1, 2, None}
-CONSTANTS H = 5  Vals = {0, 1, 2}  WithNone = TRUE
+\* thorough: meshes over 0..5, values {1, 2, None}
+CONSTANTS H = 5  Vals = {1, 2}  WithNone = TRUE
 INIT Init
 NEXT Next
 INVARIANT SumConservesTotal
